@@ -14,7 +14,7 @@ A history is any sequence of `push r` / `extend rs` / `viaSerializer rs` / `buil
   hypothesis) and `take_is_fresh`.  `batches_strict`: for `Safe` schemas the states are moreover strictly well formed (`WFB`;
   false without `Safe`).
 The statements about the ARRAYS each build returns (`C10_histories`, `C10_chunking_irrelevant`, `C10_build_is_fresh`) are in
-Props/C10Arrays.lean: every build is physically the one-shot `toMarrow` of its batch, hence decodes by `C01_build_decode`.
+Props/C10Arrays.lean: every build is physically the one-shot `toMarrow` of its batch, hence decodes by `C01.C01_build_decode'` (Props/C01Obs.lean; no `Safe`).
 -/
 namespace SaModel.Props.C10
 open SaModel SaModel.Build SaModel.Spec
@@ -335,8 +335,8 @@ theorem histInv_fresh {fields : List Field} {r0 : B} (h0 : newRoot fields = .ok 
   ⟨WFH_of_WFB _ (newRoot_fresh h0).1, Build.newRoot_NoDictKey h0, Det_of_WFB (newRoot_fresh h0).1⟩
 
 /-- **batches (R1 level).** In any history over ANY schema `build_builder` accepts — records of ANY shape, raw key/value
-call streams included (a Map builder refuses the non-alternating ones since repo fix eafdf15; the former hypothesis `rawOK`
-is gone), NO `Safe` hypothesis (dictionaries with non-nullable keys below nullable structs / fixed-size lists included) —
+call streams included (a Map builder refuses the non-alternating ones, repo fix eafdf15: no hypothesis on the
+records), NO `Safe` hypothesis (dictionaries with non-nullable keys below nullable structs / fixed-size lists included) —
 build k sees a root that satisfies the weak state invariant, is determined, and holds exactly as many rows as were added
 since build k-1 (each column at that length, `C01.runRows_rows'`); it returns `finishFields` of that state, and the builder
 continues from the fresh builder of the schema.  (For `Safe` schemas the states are moreover strictly well formed:
